@@ -161,7 +161,11 @@ def execute(case):
                     kw["right_closed"] = True
                 if case["fill"] != 0:
                     kw["fill_value"] = case["fill"]
-                res = ops.extend_dim(arr, "x", start=ends[0], stop=ends[1], **kw)
+                if not case.get("sn"):
+                    kw["start"] = ends[0]
+                if not case.get("en"):
+                    kw["stop"] = ends[1]                           # sn / en: the argument is omitted (None)
+                res = ops.extend_dim(arr, "x", **kw)
             elif k == "chain":
                 res = arr
                 for op in case["ops"]:
@@ -202,9 +206,15 @@ def random_cases(rng, tier):
         lc, rc = rng.random() < 0.5, rng.random() < 0.5
         ms = -rng.randrange(0 if lc else 1, 60)
         me = 4 * (n - 1) + rng.randrange(0 if rc else 1, 60)
+        none = rng.choice([dict(sn=False, en=False)] * 3 + [dict(sn=True, en=False), dict(sn=False, en=True), dict(sn=True, en=True)])
+        if none["sn"]:
+            ms = 0                                                  # start omitted: the interval begins at the first coordinate
+        if none["en"]:
+            me = 4 * (n - 1)
         yield {"kind": "extend", "s": rng.choice(UNITS), "a4": rng.randrange(-40, 41), "n": n, "src": src, "ms": ms, "me": me,
                "lc": lc, "rc": rc, "fill": rng.choice([0, -7]),
-               "sv": [rng.choice([0, 0, 0, 1, 2, 3]) if rng.random() < 0.5 else 0 for _ in range(n)]}
+               "sv": [rng.choice([0, 0, 0, 1, 2, 3]) if rng.random() < 0.5 else 0 for _ in range(n)],
+               **none}
     for _ in range(160 * k):
         src = rng.choice(["attr", "est"])
         n = rng.randrange(2 if src == "est" else 1, 100)
